@@ -712,8 +712,22 @@ def def_alternatives(F, X, body, op, depth=4, want=None, keep=(), _seen=None, _f
         return opaque(X.operand(body, op), body, None)
     _seen = _seen | {key}
     if projs:
-        if len(projs) == 2 and projs[0]["k"] == "downcast" and projs[1]["k"] == "field" and projs[1]["n"] == "0" and projs[0]["v"] in PAYLOAD_VARIANTS:
-            return def_alternatives(F, X, body, {"k": "move", "pl": {"l": l, "p": []}}, depth, PAYLOAD_VARIANTS[projs[0]["v"]], keep, _seen, _file, pathwise)
+        if len(projs) == 2 and projs[0]["k"] == "downcast" and projs[1]["k"] == "field" and projs[1]["n"] == "0":
+            # the payload of a one-field variant: `(x as Ok).0`, `(outcome as Fail).0`
+            wv = PAYLOAD_VARIANTS.get(projs[0]["v"], (projs[0]["v"],))
+            inner = def_alternatives(F, X, body, {"k": "move", "pl": {"l": l, "p": []}}, depth, wv, keep, _seen, _file, pathwise)
+            if want is None:
+                return inner
+            # a payload of a payload: `((out as _1).0 as Some).0` - apply the outer projection to what the inner one gave
+            res = []
+            for e, vf, cf, wh in inner:
+                if e[0] == "agg" and e[2] in ("Ok", "Some", "Err", "None") and e[2] not in want:
+                    continue
+                if e[0] == "agg" and e[2] in want and e[3]:
+                    res.append((e[3][0][1], vf, cf, wh))
+                else:
+                    res.append((("field", "0", "", want[0], e), vf, cf, wh))
+            return res
         return opaque(X.operand(body, op), body, None)
     if 1 <= l <= body.arg_count:
         return opaque(X.operand(body, op), body, None)
@@ -724,7 +738,8 @@ def def_alternatives(F, X, body, op, depth=4, want=None, keep=(), _seen=None, _f
                 for e, vf, cf, wh in def_alternatives(F, X, body, rv["op"], depth, want, keep, _seen, _file, pathwise):
                     out.append((e, vf0 + vf, cf0 + cf, wh or (body.cdef, bi)))
                 return
-            if rv["k"] == "agg" and rv.get("ak") == "adt" and want is not None and rv.get("variant") in ("Ok", "Some", "Err", "None", "Ready", "Pending"):
+            if rv["k"] == "agg" and rv.get("ak") == "adt" and want is not None and rv.get("variant") and \
+                    (rv.get("variant") in ("Ok", "Some", "Err", "None", "Ready", "Pending") or rv["variant"] != canon(rv.get("adt") or "").split("::")[-1]):
                 if rv["variant"] in want and rv["ops"]:
                     for e, vf, cf, wh in def_alternatives(F, X, body, rv["ops"][0], depth, None, keep, _seen, _file, pathwise):
                         out.append((e, vf0 + vf, cf0 + cf, (body.cdef, bi)))
